@@ -72,16 +72,44 @@ class Driver:
 # exact encoding
 # ---------------------------------------------------------------------------
 
-def frac(x) -> Fraction:
+class _NaN:
+    """exact stand-in for a missing value: equal to itself, different from every number, absorbing in arithmetic"""
+    def __eq__(self, other):
+        return other is self
+    def __ne__(self, other):
+        return other is not self
+    def __hash__(self):
+        return 7
+    def __neg__(self):
+        return self
+    def _absorb(self, *_):
+        return self
+    __add__ = __radd__ = __sub__ = __rsub__ = __mul__ = __rmul__ = __truediv__ = __rtruediv__ = _absorb
+    def __repr__(self):
+        return "nan"
+
+
+NAN = _NaN()
+NAN_SENTINEL = Fraction(987654321)   # what a missing value is replaced by where a MODEL only moves values around
+
+
+def frac(x):
     if isinstance(x, Fraction):
+        return x
+    if isinstance(x, _NaN):
         return x
     if isinstance(x, (int, np.integer)):
         return Fraction(int(x))
-    return Fraction(float(x))  # exact value of the float
+    x = float(x)
+    if x != x:
+        return NAN
+    return Fraction(x)  # exact value of the float
 
 
 def enc_rat(x) -> str:
     f = frac(x)
+    if f is NAN:
+        f = NAN_SENTINEL
     return str(f.numerator) if f.denominator == 1 else f"{f.numerator}/{f.denominator}"
 
 
@@ -118,6 +146,7 @@ def enc_kw(kw, enc=str) -> str:
     if kw is None:
         return "N"
     if isinstance(kw, dict):
+        kw = {a: v for a, v in kw.items() if v is not None}      # an entry that says None says nothing
         return "D " + str(len(kw)) + "".join(f" {a} {enc(v)}" for a, v in kw.items())
     return "S " + enc(kw)
 
